@@ -977,3 +977,76 @@ mod tests {
         assert!(debug_output.contains("test_column_name"));
     }
 }
+
+/// Verification hooks (only with `--cfg scylla_verif`): build a [`PreparedStatement`] from a
+/// deserialized PREPARED response the way the session does, and pass-throughs to the
+/// crate-private partition-key extraction, key encoding and token calculation.
+#[cfg(scylla_verif)]
+#[allow(missing_docs)]
+pub mod verif_hooks {
+    use super::{
+        PartitionKeyError, PartitionKeyExtractionError, PreparedStatement, RawPreparedStatement,
+        TokenCalculationError,
+    };
+    use crate::frame::response::result;
+    use crate::routing::Token;
+    use crate::routing::partitioner::PartitionerName;
+    use crate::serialize::row::SerializedValues;
+    use crate::statement::Statement;
+
+    /// `RawPreparedStatement::into_prepared_statement` + `set_partitioner_name`.
+    pub fn prepared_statement_from_response(
+        response: result::Prepared,
+        partitioner: PartitionerName,
+    ) -> PreparedStatement {
+        let statement = Statement::new("verif");
+        let mut prepared =
+            RawPreparedStatement::new(&statement, response, false, None).into_prepared_statement();
+        prepared.set_partitioner_name(partitioner);
+        prepared
+    }
+
+    /// `PartitionKey::new`: the slots of the partition key, in partition-key order
+    /// (`None` = no value was stored for that key column).
+    pub fn extract_partition_key_slots(
+        prepared: &PreparedStatement,
+        values: &SerializedValues,
+    ) -> Result<Vec<Option<Vec<u8>>>, PartitionKeyExtractionError> {
+        prepared.extract_partition_key(values).map(|pk| {
+            pk.pk_values
+                .iter()
+                .map(|slot| slot.map(|(v, _spec)| v.to_vec()))
+                .collect()
+        })
+    }
+
+    /// `PartitionKey::write_encoded_partition_key`: the chunks handed to the writer, in order.
+    pub fn encoded_partition_key_chunks(
+        prepared: &PreparedStatement,
+        values: &SerializedValues,
+    ) -> Result<Vec<Vec<u8>>, PartitionKeyError> {
+        let pk = prepared.extract_partition_key(values)?;
+        let mut chunks = Vec::new();
+        pk.write_encoded_partition_key(&mut |chunk: &[u8]| chunks.push(chunk.to_vec()))?;
+        Ok(chunks)
+    }
+
+    /// `PreparedStatement::calculate_token_untyped`.
+    pub fn calculate_token_untyped(
+        prepared: &PreparedStatement,
+        values: &SerializedValues,
+    ) -> Result<Option<Token>, PartitionKeyError> {
+        prepared.calculate_token_untyped(values)
+    }
+
+    /// `routing::partitioner::calculate_token_for_partition_key`.
+    pub fn calculate_token_for_partition_key(
+        serialized_partition_key_values: &SerializedValues,
+        partitioner: &PartitionerName,
+    ) -> Result<Token, TokenCalculationError> {
+        crate::routing::partitioner::calculate_token_for_partition_key(
+            serialized_partition_key_values,
+            partitioner,
+        )
+    }
+}
